@@ -445,7 +445,10 @@ class Engine:
         modname, path = qualname.split(":")
         m = self.module(modname)
         parts = path.split(".")
-        v = self.mod_global(m, parts[0])
+        try:
+            v = self.mod_global(m, parts[0])
+        except KeyError:
+            raise OutOfSubset(f"{qualname} does not exist on this tree") from None
         for p in parts[1:]:
             if isinstance(v, ClassV):
                 v = v.lookup(p)
@@ -936,14 +939,136 @@ class Exec:
     def st_For(self, st):
         if st.orelse:
             raise OutOfSubset("for/else")
-        hook = self.hooks.get(("for", st.lineno)) or self.hooks.get(("for", self._loop_key(st)))
+        hook = self.hooks.get(("for", st.lineno))
         if hook is not None:
             return hook(self, st)
         it = self.eval(st.iter)
+        if isinstance(it, RangeV) and not all(tm.is_const(x) for x in (it.start, it.stop, it.step)):
+            return self.loop_recurrence(st, it)
+        if isinstance(it, EnumV) and isinstance(it.inner, ArrV) and it.inner.static_len() is None:
+            return self.loop_independent(st, it)
         seq = self.iterate(it)
         for v in seq:
             self.assign(st.target, v)
             self.exec_block(st.body)
+
+    # ---- loops over a symbolic range: summarised exactly as a recurrence
+    def loop_recurrence(self, st, rng):
+        """for i in range(N) whose body reads outer arrays at row i (and loop-invariant values) and writes row i+1:
+        the arrays after the loop are PP with PP[0] = row 0 before the loop and PP[i+1] = body(PP[i], i) for
+        0 <= i < N.  The body is executed once at a symbolic i; the record goes to ghost['loops'] for contracts."""
+        if not (tm.is_const(rng.start) and tm.cval(rng.start) == 0 and tm.is_const(rng.step) and tm.cval(rng.step) == 1):
+            raise OutOfSubset("symbolic loop not of the form range(N)")
+        if not isinstance(st.target, ast.Name):
+            raise OutOfSubset("loop target")
+        N = rng.stop
+        fr = self.frames[-1]
+        assigned, first_store, first_load = [], {}, {}
+        order = 0
+        for node in ast.walk(ast.Module(body=st.body, type_ignores=[])):
+            if isinstance(node, ast.Name):
+                order = (node.lineno, node.col_offset)
+                if isinstance(node.ctx, ast.Store):
+                    first_store.setdefault(node.id, order)
+                    if node.id not in assigned:
+                        assigned.append(node.id)
+                elif isinstance(node.ctx, ast.Load):
+                    if node.id not in first_load or order < first_load[node.id]:
+                        first_load[node.id] = order
+        for nm in assigned:
+            if nm in first_load and first_load[nm] < first_store[nm] and nm != st.target.id:
+                raise OutOfSubset(f"loop-carried variable {nm!r}: the iteration depends on more than the previous row")
+        stored = []
+        for node in ast.walk(ast.Module(body=st.body, type_ignores=[])):
+            tg = []
+            if isinstance(node, ast.Assign):
+                tg = node.targets
+            elif isinstance(node, ast.AugAssign):
+                tg = [node.target]
+            for t in tg:
+                for e in (t.elts if isinstance(t, (ast.Tuple, ast.List)) else [t]):
+                    if isinstance(e, ast.Subscript) and isinstance(e.value, ast.Name) and e.value.id not in assigned and e.value.id not in stored:
+                        stored.append(e.value.id)
+                    elif isinstance(e, ast.Attribute):
+                        raise OutOfSubset("attribute store inside a symbolic loop")
+        k = len(self.ghost.setdefault("loops", []))
+        i = tm.var(f"i{k}", tm.I)
+        rec = {"index": i, "N": N, "arrays": {}, "lineno": st.lineno, "function": fr.module.name}
+        arrs = {}
+        for nm in stored:
+            A = self.lookup(nm)
+            if not isinstance(A, ArrV) or A.view_of is not None or A.ndim not in (1, 2):
+                raise OutOfSubset(f"loop stores into {nm!r}, which is not a plain array")
+            pre = A.cur()
+            pp = f"{nm}@L{k}"
+            A._fn = (lambda idx, pp=pp: tm.app(pp, idx, tm.R))
+            arrs[nm] = (A, pre, pp)
+        self.pc.append(tm.land(tm.le(tm.const(0), i), tm.lt(i, N)))
+        n_solves = len(self.ghost.get("solves", []))
+        fr.env[st.target.id] = i
+        self.exec_block(st.body)
+        one = tm.const(1)
+        for nm, (A, pre, pp) in arrs.items():
+            cur = A.cur()
+            probe = tuple(tm.var(f"#R{d}", tm.I) for d in range(A.ndim))
+            t = cur(probe)
+            hit = tm.eq(probe[0], tm.add(i, one))
+            frame = tm.subst(t, {hit: tm.FALSE}) if hit.op != "bool" else t
+            if frame is not tm.app(pp, probe, tm.R):
+                raise OutOfSubset(f"the loop body writes {nm!r} elsewhere than at row i+1")
+            newrow = (lambda c, cur=cur: cur((tm.add(i, one),) + tuple(c)))
+            rec["arrays"][nm] = {"array": A, "symbol": pp, "pre": pre, "newrow": newrow}
+            A._fn = (lambda idx, pp=pp: tm.app(pp, idx, tm.R))
+        rec["locals"] = {nm: fr.env.get(nm) for nm in assigned if nm in fr.env}
+        rec["solves"] = list(self.ghost.get("solves", [])[n_solves:])
+        for nm in assigned:
+            fr.env.pop(nm, None)
+        self.ghost["loops"].append(rec)
+        from . import libmodels
+        libmodels.used(self, "symbolic loop summarised as the recurrence row[i+1] = body(row[i], i) (body executed once at a symbolic index)")
+
+    def loop_independent(self, st, it):
+        """for i, row in enumerate(arr): iterations that only append to ghost lists (plots): the body is executed once at a
+        symbolic index under each combination of its branch conditions; effects are recorded with their guards."""
+        arr = it.inner
+        k = len(self.ghost.setdefault("loops", []))
+        i = tm.var(f"i{k}", tm.I)
+        fr = self.frames[-1]
+        self.pc.append(tm.land(tm.le(tm.const(0), i), tm.lt(i, arr.shape[0])))
+        base = len(self.pc)
+        if arr.ndim == 2:
+            elt = row_view(arr, i)
+        else:
+            elt = arr.get(i)
+        effects = self.ghost.setdefault("effects", [])
+        n0 = len(effects)
+        results = []
+        sub_trail = []
+        saved_env = dict(fr.env)
+        while True:
+            ex = Exec(self.eng, sub_trail, pc0=list(self.pc))
+            ex.frames = list(self.frames)
+            ex.fresh, ex.hooks, ex.ghost = self.fresh, self.hooks, self.ghost
+            fr.env.clear()
+            fr.env.update(saved_env)
+            m0 = len(effects)
+            try:
+                ex.assign(st.target, (i, elt))
+                ex.exec_block(st.body)
+            except _Backtrack:
+                pass
+            for e in effects[m0:]:
+                e["guard"] = tm.land(*ex.pc[base:])
+                e["index"] = i
+            sub_trail = next_trail(ex.decisions)
+            if sub_trail is None:
+                break
+        fr.env.clear()
+        fr.env.update(saved_env)
+        self.pc.pop()
+        self.ghost["loops"].append({"index": i, "N": arr.shape[0], "kind": "independent", "effects": effects[n0:]})
+        from . import libmodels
+        libmodels.used(self, "loop with independent iterations evaluated at a symbolic index; drawn curves recorded with their guards")
 
     def st_While(self, st):
         hook = self.hooks.get(("while", self._loop_key(st)))
